@@ -137,7 +137,11 @@ class PITFrozenDilationMasker(PITDilationMasker):
             rf,
             trainable=False,
         )
-        self.gamma.requires_grad = False
+        # a frozen mask is not an architectural parameter: store it as a buffer (under the same
+        # name), so that it is never listed among the NAS parameters, made trainable or updated
+        gamma = self.gamma.detach()
+        del self.gamma
+        self.register_buffer('gamma', gamma)
 
     @property
     def trainable(self) -> bool:
